@@ -62,6 +62,7 @@ func vecOf(i int) []float32 { return idxlib.Grid[i%len(idxlib.Grid)] }
 func runBody(sc scenario, ix *index.Hnsw, now func() int64, spawn func(name string, f func())) *[]rec {
 	var mu sync.Mutex
 	recs := &[]rec{}
+	cctx, cancel := newCancellable()
 	for ti, ops := range sc.threads {
 		ti, ops := ti, ops
 		spawn(fmt.Sprintf("t%d", ti), func() {
@@ -78,6 +79,11 @@ func runBody(sc scenario, ix *index.Hnsw, now func() int64, spawn func(name stri
 					r.n = ix.Len()
 				case "search":
 					r.res, r.err = ix.Search(context.Background(), idxlib.Queries[1], 3)
+				case "csearch":
+					// a search whose caller may go away in the middle of it (the scenario's cancellable context)
+					r.res, r.err = ix.Search(cctx, idxlib.Queries[1], 3)
+				case "cancel":
+					cancel()
 				}
 				r.ret = now()
 				mu.Lock()
@@ -88,6 +94,10 @@ func runBody(sc scenario, ix *index.Hnsw, now func() int64, spawn func(name stri
 	}
 	return recs
 }
+
+// newCancellable makes the context of the "csearch" / "cancel" operations: the scheduler's own under exploration,
+// the standard one in the free-running race pass (set in racePass).
+var newCancellable = func() (context.Context, context.CancelFunc) { return vrt.WithCancel(context.Background()) }
 
 func newIndex(sc scenario) (*index.Hnsw, map[int]int) {
 	opts := []index.HnswOption{index.HnswM(sc.m), index.HnswEf(3), index.HnswEfConstruction(3)}
@@ -300,11 +310,53 @@ func checkExecution(sc scenario, ix *index.Hnsw, pre map[int]int, recs []rec) *e
 	if ix.Len() != len(ref) {
 		return &explore.Violation{Key: "count-mismatch-at-quiescence", Desc: fmt.Sprintf("Len()=%d after all operations returned, %d live ids: %s", ix.Len(), len(ref), describe(recs))}
 	}
+	// 2b. a count read in mid-flight lies between the ids that were certainly stored during the whole read and the ids
+	// that may have been (every counter update happens inside the window of the operation that causes it)
+	for _, r := range recs {
+		if r.op.Kind != "len" {
+			continue
+		}
+		lo, hi := 0, 0
+		for id := 0; id < 6; id++ {
+			_, initPresent := pre[id]
+			certainly, possibly := initPresent, initPresent
+			for _, o := range recs {
+				if o.op.ID != id {
+					continue
+				}
+				if o.op.Kind == "ins" && o.err == nil {
+					if o.ret < r.call {
+						certainly = true
+					}
+					if o.call <= r.ret {
+						possibly = true
+					}
+				}
+			}
+			for _, o := range recs {
+				if o.op.ID == id && o.op.Kind == "rem" && o.err == nil && o.call <= r.ret {
+					certainly = false
+				}
+			}
+			if certainly {
+				lo++
+			}
+			if possibly {
+				hi++
+			}
+		}
+		if r.n < lo || r.n > hi {
+			return &explore.Violation{Key: "count-out-of-range-mid-flight", Desc: fmt.Sprintf("Len()=%d read during [%d,%d]: between %d and %d ids were stored: %s", r.n, r.call, r.ret, lo, hi, describe(recs))}
+		}
+	}
 	// 3. every search result was live at some instant of the search, with the matching score
 	sp := idxlib.Space("euclidean")
 	for _, r := range recs {
-		if r.op.Kind != "search" {
+		if r.op.Kind != "search" && r.op.Kind != "csearch" {
 			continue
+		}
+		if r.op.Kind == "csearch" && r.err == context.Canceled {
+			continue // the caller went away: no answer is an answer
 		}
 		if r.err != nil {
 			return &explore.Violation{Key: "search-error", Desc: fmt.Sprint(r.err)}
@@ -342,7 +394,7 @@ func checkExecution(sc scenario, ix *index.Hnsw, pre map[int]int, recs []rec) *e
 		insertOnly = insertOnly && o.Kind == "ins"
 	}
 	for _, r := range recs {
-		insertOnly = insertOnly && (r.op.Kind == "ins" || r.op.Kind == "search" || r.op.Kind == "get" || r.op.Kind == "len")
+		insertOnly = insertOnly && (r.op.Kind == "ins" || r.op.Kind == "search" || r.op.Kind == "csearch" || r.op.Kind == "cancel" || r.op.Kind == "get" || r.op.Kind == "len")
 	}
 	if insertOnly && len(ref) <= 2*sc.m+1 && len(ref) <= 3 {
 		for _, q := range idxlib.Queries {
@@ -397,7 +449,11 @@ func scenarios() []scenario {
 	G := func(id int) opSpec { return opSpec{"get", id, 0, 0} }
 	S := opSpec{Kind: "search"}
 	L := opSpec{Kind: "len"}
+	CS := opSpec{Kind: "csearch"}
+	X := opSpec{Kind: "cancel"}
 	return []scenario{
+		{name: "S10-search-cancelled-midway-vs-writers", m: 2, pre: []opSpec{I(0, 0, 0), I(1, 1, 0), I(2, 2, 0)}, threads: [][]opSpec{{CS}, {X, R(0), I(3, 3, 0)}, {R(1)}}, maxQ: 2},
+		{name: "S11-remove-while-insert-is-linking-vs-count", m: 1, pre: []opSpec{I(0, 0, 0), I(1, 1, 0)}, threads: [][]opSpec{{I(2, 2, 0)}, {R(2)}, {L, S, L}}, maxQ: 2},
 		{name: "S1-insert-same-id-twice", m: 1, pre: []opSpec{I(0, 0, 0), I(1, 1, 0)}, threads: [][]opSpec{{I(2, 2, 0)}, {I(2, 3, 0)}}},
 		{name: "S2-insert-vs-remove-entrypoint", m: 1, pre: []opSpec{I(0, 0, 1), I(1, 1, 0)}, threads: [][]opSpec{{I(2, 2, 1)}, {R(0)}}},
 		{name: "S3-remove-linked-neighbours-vs-search", m: 2, pre: []opSpec{I(0, 0, 0), I(1, 1, 0), I(2, 2, 0)}, threads: [][]opSpec{{R(0)}, {R(1)}, {S}}, maxQ: 2},
@@ -450,6 +506,7 @@ func build(sc scenario) *explore.Scenario {
 // racePass: the same bodies, un-instrumented, free-running under the race detector.
 func racePass() {
 	world.Quiet()
+	newCancellable = func() (context.Context, context.CancelFunc) { return context.WithCancel(context.Background()) }
 	iters := 300
 	if os.Getenv("VERIF_TIER") == "thorough" {
 		iters = 3000
@@ -484,8 +541,6 @@ func main() {
 		"model_checking", []string{
 			"scheduling points at every lock and every sync/atomic operation; sequential consistency in between (the separate -race pass covers unsynchronised accesses, by sampling)",
 			"ids a..c on colliding grid vectors, M in {1,2}; timestamps for linearizability are scheduler step numbers",
-			"Len read mid-flight is not constrained; the count is checked at quiescence",
+			"a count read in mid-flight must lie between the number of ids certainly stored throughout the read and the number possibly stored; the exact count is checked at quiescence",
 		})
 }
-
-
